@@ -89,6 +89,10 @@ SPECS = [
     # reconnect hundreds of inodes, i.e. grow lost+found by whole clusters and charge them to quota
     dict(name="ext4_bigalloc_quota", kb=32768, args="-t ext4 -b 1024 -O bigalloc,quota -C 4096 -J size=1",
          tree="tiny", extras=["manylinks"], quota_after=True),
+    # 128-byte inodes: every attribute lives in an xattr block, some with an empty value; outside
+    # the corruption universes (big=True keeps their numbering stable)
+    dict(name="ext4_i128_emptyxattr", kb=8192, big=True, args="-t ext4 -b 1024 -I 128 -J size=1", tree="tiny",
+         extras=["xattrs", "emptyxattr"]),
     # external journal devices (s_first = 3 at 1k blocks, 2 at 4k): journal replay checks only
     dict(name="ext4_xj1k", kb=8192, big=True, args="-t ext4 -b 1024 -I 256", extjournal=2048, tree="tiny"),
     dict(name="ext4_xj4k", kb=16384, big=True, args="-t ext4 -b 4096 -I 256", extjournal=8192, tree="tiny"),
@@ -213,6 +217,10 @@ def build_image(b, spec, path, work, seed=0, keep_tree=False):
                    "ea_set /xa/f1 trusted.t1 %s" % ("t" * 300),
                    "ea_set /xa/f2 user.a %s" % ("a" * 90), "ea_set /xa/f2 security.sel ctx:obj:1",
                    "ea_set /xa user.dirattr onadir"]
+    if "emptyxattr" in ex:
+        script += ["write /dev/null /xa/e1", 'ea_set /xa/e1 user.flag ""', "ea_set /xa/e1 user.color red",
+                   "write /dev/null /xa/e2", 'ea_set /xa/e2 user.empty ""',
+                   'ea_set /xa/f2 user.also_empty ""']
     if "bigxattr" in ex:
         big = os.path.join(work, "bigval-" + spec["name"])
         with open(big, "wb") as f:
